@@ -208,6 +208,27 @@ fn prop_size(p: &Prop) -> usize {
     }
 }
 
+fn history_profile() -> cgen::Profile {
+    cgen::Profile {
+        conns: (2, 4),
+        steps: (2, 14),
+        tx: (64, 600),
+        keep_session_pct: 95,
+        handshake_failures: 5,
+        w_pub: [3, 8, 5],
+        w_sub: 3,
+        w_unsub: 2,
+        w_ack: 9,
+        w_ackall: 1,
+        w_deliver: 1,
+        payload_max: 5,
+        topic_max: 3,
+        pub_props: false,
+        session_expiry: vec![3600],
+        ..cgen::Profile::default()
+    }
+}
+
 pub fn strategy(thorough: bool) -> BoxedStrategy<Case> {
     let op = prop_oneof![5 => pub_step(thorough), 3 => sub_step()];
     (
@@ -367,12 +388,27 @@ pub fn run(ctx: &Ctx) -> i32 {
         }
         Eval { nontrivial: out.boundary || out.rich_connect || out.prop_block, violations: out.violations, classes, watchdog: out.watchdog }
     });
+    // retransmissions are outbound packets too: histories with several packets in flight, partial
+    // acknowledgement and resumed reconnects, judged by the history monitor's C09 rules
+    let mut agg = agg;
+    let hist = run_prop(ctx, "case", 16, ctx.tier.pick(60_000, 1_500_000), || cgen::case(&history_profile()), |case: &Case| {
+        let (violations, stats, trace) = crate::props::scen::eval_case(case);
+        let mut classes = Vec::new();
+        if stats.replays > 0 {
+            classes.push("retransmission-decoded");
+        }
+        if stats.replays > 0 && stats.acks_out_of_order + stats.resumed_with_inflight > 0 {
+            classes.push("retransmission-after-partial-acknowledgement");
+        }
+        Eval { nontrivial: stats.replays > 0, violations, classes, watchdog: trace.watchdog }
+    });
+    agg.merge(hist);
     finish(
         ctx,
         agg,
         Report {
             level: "exploration",
-            rule: "generated configurations (will on/off x QoS x retain x will property sets incl. Will Delay, auth, keep-alive {0,1,60,65535,any}, session expiry, client ids of 0..64 bytes, optional Server Keep Alive / Assigned Client Identifier followed by a second CONNECT) and 1-3 requests: publishes with every publish property kind and combination incl. correlate(), payload sized so the remaining length is 128/16384/2097152 +-2, fields of 65536+ bytes, subscribe with 1-6 filters x all option combinations x subscription ids, unsubscribe lists, disconnect reasons/properties; transmit arena ample, slightly too small or tiny; partial writes. Oracle: strict reference decode of every captured packet equals the request field by field (properties as multisets), CONNECT fields equal the configuration, unencodable => error and zero I/O, encodable with ample resources => accepted. Non-trivial = a remaining length within 2 of a varint boundary, a property block, or a will/auth configuration; distinct = distinct case value.".into(),
+            rule: "generated configurations (will on/off x QoS x retain x will property sets incl. Will Delay, auth, keep-alive {0,1,60,65535,any}, session expiry, client ids of 0..64 bytes, optional Server Keep Alive / Assigned Client Identifier followed by a second CONNECT) and 1-3 requests: publishes with every publish property kind and combination incl. correlate(), payload sized so the remaining length is 128/16384/2097152 +-2, fields of 65536+ bytes, subscribe with 1-6 filters x all option combinations x subscription ids, unsubscribe lists, disconnect reasons/properties; transmit arena ample, slightly too small or tiny; partial writes. Oracle: strict reference decode of every captured packet equals the request field by field (properties as multisets), CONNECT fields equal the configuration, unencodable => error and zero I/O, encodable with ample resources => accepted. Non-trivial = a remaining length within 2 of a varint boundary, a property block, or a will/auth configuration; distinct = distinct case value. Second generator: histories of 2-4 resumed connections on 64-600 byte arenas with several short (hence often equally long) packets in flight and partial acknowledgement; every retransmission must still decode to the request (non-trivial = a retransmission was decoded).".into(),
             assumptions: vec![
                 "property order inside a packet is not specified by the API (correlate() may be placed anywhere): property lists are compared as multisets".into(),
                 "reference codec (harness/src/refcodec.rs) is the trusted decoder".into(),
